@@ -22,7 +22,7 @@ func (s *StreamSelectPlanner) Process(ctx *shared.PlannerContext) (sql.ISelect, 
 		matcher := parser.LabelMatcher{Node: _matcher}
 		labelNames = append(labelNames, matcher.GetLabel())
 		ops = append(ops, matcher.GetOp())
-		values = append(values, matcher.GetVal())
+		values = append(values, matcherValue(_matcher))
 	}
 	plannerStreamSelect := logql_transpiler.NewStreamSelectPlanner(labelNames, ops, values)
 	return plannerStreamSelect.Process(ctx)
